@@ -427,7 +427,8 @@ def _inner_task_key(prog):
 @check("C02")
 def c02(rep, tier, seed):
     """pipeline semantics: routing, recovery, unwrapping (Pipeline.tla reference interpreter, all programs)"""
-    cfgs = [("Pipeline_C02_quick.cfg", "all programs of length <= 2 over every source, signature class and behaviour")]
+    cfgs = [("Pipeline_C02_quick.cfg", "all programs of length <= 2 over every source, signature class and behaviour"),
+            ("Pipeline_C02_rej.cfg", "programs of length <= 2 with executors that reject (a dropped step reads StopError)")]
     if tier == "thorough":
         cfgs.append(("Pipeline_C02_thorough.cfg", "programs of length <= 3 over a reduced behaviour alphabet"))
     seq.check_pipeline(rep, cfgs, {"C02", "C12"}, tier, crash_key=_inner_task_key)
